@@ -540,3 +540,44 @@ package tcp
 //@   assume ts <= tsMask
 //@   prove (h0 + seq + (ts << tsOffset) + ((h1 + data) & hashMask) - h0 - seq) >> tsOffset == ts
 //@   prove ((h0 + seq + (ts << tsOffset) + ((h1 + data) & hashMask) - h0 - seq) - h1) & hashMask == data & hashMask
+
+// ---------------------------------------------------------------------------
+// C04 (the advertised window reopens once the application reads again) and C01 (read path):
+// readLocked hands out the next undelivered view of the first queued segment - the very view,
+// in order -, releases exactly its length from the receive buffer accounting, drops the
+// segment from the list once its last view is out, and - when that read turns a zero
+// advertised window (after scaling) into a non-zero one - notifies the protocol goroutine so
+// that a window update is sent. The queue's shape (bytes accounted for => a first segment with
+// an undelivered view) is a precondition.
+//@ define wndZero(e, used, scale) = used >= e.rcvBufSize || (e.rcvBufSize - used) >> scale == 0
+//@ func (*endpoint).zeroReceiveWindow props C04
+//@   ensures result == wndZero(e, e.rcvBufUsed, scale)
+//@ func (*endpoint).notifyProtocolGoroutine props C04
+//@   trusted
+//@   ghost_set wndNotified = old(ghost(wndNotified)) + ite(n & notifyNonZeroReceiveWindow != 0, 1, 0)
+//@   modifies e.notifyFlags, ghost(wndNotified)
+//@ func (*endpoint).readLocked props C04 C01
+//@   requires e != nil && e.rcv != nil && e.rcvBufSize >= 0 && e.rcvBufSize <= 1 << 40 && e.rcvBufUsed <= 1 << 40
+//@   requires implies(e.rcvBufUsed != 0, e.rcvList.head != nil && e.rcvList.head.segmentEntry.prev == nil && 0 <= e.rcvList.head.viewToDeliver && e.rcvList.head.viewToDeliver < len(e.rcvList.head.data.views))
+//@   ensures implies(old(e.rcvBufUsed) == 0, result2 != nil && e.rcvBufUsed == 0 && ghost(wndNotified) == old(ghost(wndNotified)))
+//@   ensures implies(old(e.rcvBufUsed) != 0, result2 == nil && buffer.sameView(result1, old(e.rcvList.head.data.views[e.rcvList.head.viewToDeliver])) && e.rcvBufUsed == old(e.rcvBufUsed) - len(result1))
+//@   ensures implies(old(e.rcvBufUsed) != 0 && old(e.rcvList.head.viewToDeliver) + 1 < old(len(e.rcvList.head.data.views)), e.rcvList.head == old(e.rcvList.head) && e.rcvList.head.viewToDeliver == old(e.rcvList.head.viewToDeliver) + 1)
+//@   ensures implies(old(e.rcvBufUsed) != 0 && old(e.rcvList.head.viewToDeliver) + 1 >= old(len(e.rcvList.head.data.views)), e.rcvList.head == old(e.rcvList.head.segmentEntry.next))
+//@   ensures implies(old(e.rcvBufUsed) != 0, ghost(wndNotified) == old(ghost(wndNotified)) + ite(old(wndZero(e, e.rcvBufUsed, e.rcv.rcvWndScale)) && !wndZero(e, e.rcvBufUsed, old(e.rcv.rcvWndScale)), 1, 0))
+//@   modifies modset(NETQUIET)
+//@   modifies e.rcvBufUsed, e.rcvList.head, e.rcvList.tail, e.notifyFlags, ghost(wndNotified), structfamily(segment)
+
+// The protocol goroutine's reaction to that notification: if the window last announced was
+// zero (after scaling), exactly one pure ACK (no data, sequence number SND.NXT) goes out at
+// once - the window update; otherwise nothing is sent.
+//@ func (*sender).sendAck props C04
+//@   requires s != nil && s.ep != nil && s.ep.rcv != nil && s.ep.rcv.ep != nil
+//@   requires 0 <= s.ep.sack.NumBlocks && s.ep.sack.NumBlocks <= MaxSACKBlocks
+//@   ensures ghost(tcpSegs) == old(ghost(tcpSegs)) + 1 && ghost(lastTCPFlags) == int(flagAck) && ghost(lastTCPSeq) == int(uint32(old(s.sndNxt))) && ghost(sentNonFin) == old(ghost(sentNonFin)) + 1
+//@   modifies modset(NETSEND)
+//@   modifies s.lastSendTime, s.rttMeasureTime, s.maxSentAck, s.ep.rcv.rcvAcc
+//@ func (*receiver).nonZeroWindow props C04
+//@   requires rcvOK(r) && r.ep.snd.ep.rcv == r
+//@   ensures ghost(tcpSegs) == old(ghost(tcpSegs)) + ite(uint32(old(r.rcvAcc) - old(r.rcvNxt)) >> old(r.rcvWndScale) == 0, 1, 0)
+//@   modifies modset(NETSEND)
+//@   modifies r.ep.snd.lastSendTime, r.ep.snd.rttMeasureTime, r.ep.snd.maxSentAck, r.rcvAcc
